@@ -1190,8 +1190,10 @@ def gen_mutex_prog(rng):
             r = rng.random()
             if r < 0.55:
                 ops.append((OP['INC'], m, rng.choice((0, 0, 1, 3)), 0))      # b-1 = yield option inside the critical section
-            elif r < 0.85:
+            elif r < 0.8:
                 ops.append((OP['TL'], m, rng.choice((0, 0, 3)), rng.choice((0, 1))))
+            elif r < 0.9:
+                ops.append((OP['TLK'], m, rng.choice((-50, 0, 100, 400, 1500, 100000)), rng.choice((0, 3))))
             else:
                 ops.append((OP['YD'], rng.choice((0, 1, 2)), 0, 0))
         bodies.append(ops)
